@@ -164,7 +164,13 @@ func TestC15_Renderings(t *testing.T) {
 		p.JSON = false
 		root := uni.GenDatum(t, p)
 		g := gen.NewExprGen(t, root, "")
-		e := g.Expr(rapid.IntRange(1, 4).Draw(t, "depth"))
+		var e bx.Expr
+		if rapid.Bool().Draw(t, "free") {
+			// free trees, bare keywords admitted as names: PEG ordered choice decides how they read
+			e = gen.FreeExprKW(t, rapid.IntRange(1, 4).Draw(t, "depth"))
+		} else {
+			e = g.Expr(rapid.IntRange(1, 4).Draw(t, "depth"))
+		}
 		rend := bx.NewRenderer(chooser(t))
 		rend.MaxParen = 2
 		text, _ := rend.Render(e)
